@@ -271,7 +271,8 @@ class FortranAST:
                         include_ast.inc_scope = include_ast.none_scope
                     # Remove old objects
                     for obj in added_entities:
-                        parent_scope.children.remove(obj)
+                        if (parent_scope is not None) and (obj in parent_scope.children):
+                            parent_scope.children.remove(obj)
                     added_entities = []
                     # Iterate over a copy, with cyclic includes the list of included
                     # entities can be the very list that is being extended
